@@ -136,6 +136,9 @@ func runC12(s *kernel.Sim) {
 			}
 			st.retry, st.ttl, st.absolute = ra, time.Duration(ra*float64(time.Second)), absolute
 			if absolute {
+				if tp.Chance(1, 5) { // a reset instant that is already over, or is this very second
+					ra = float64([]int{-2, -30, 0}[tp.Choose(3)])
+				}
 				epoch := time.Now().Unix() + int64(ra)
 				hdr[raName] = strconv.FormatInt(epoch, 10)
 				st.retry = float64(epoch)
